@@ -43,3 +43,13 @@ Definition commit_prog (pages : list Z) (hdr : Z) : list wop :=
 (* a commit reports success iff the last request (the final sync) reports no error; since the error
    is sticky this is the same as "no request of the commit reported an error" *)
 Definition commit_reports_error (rs : list wres) : bool := existsb r_reported_err rs.
+
+(* a transaction that is rolled back / closed after Tx.Flush or Page.Flush scheduled page writes. Since the
+   repair of D16 Rollback and Close wait for these writes and, if one of them reported an error, issue a sync
+   request with the reset flag. *)
+Definition abort_prog (pages : list Z) : list wop := map WWrite pages.
+Definition run_abort (fixed : bool) (plan : nat -> bool) (pages : list Z) (err : bool) (k : nat) : list wres * bool * nat :=
+  let '(rs, e, k') := run_writer plan (abort_prog pages) err k in
+  if fixed && existsb r_reported_err rs then
+    let '(rs2, e2, k2) := run_writer plan [WSync true] e k' in (rs ++ rs2, e2, k2)
+  else (rs, e, k').
